@@ -160,6 +160,7 @@ func c20RunTransmitOnce(in c20Input, exe string, raceBuild bool) (c20StressResul
 	defer os.RemoveAll(dir)
 	outPath := filepath.Join(dir, "result.json")
 	cmd := exec.Command(exe, "-test.run", "^TestC20StressChild$", "-test.timeout", "10m")
+	coverChild(cmd)
 	cmd.Env = append(os.Environ(), c20StressOutEnv+"="+outPath,
 		"C20_STRESS_ROUNDS="+strconv.Itoa(in.Rounds), "C20_STRESS_K="+strconv.Itoa(in.K), "C20_STRESS_PER="+strconv.Itoa(in.PerReport),
 		"VERIF_OUT="+filepath.Join(dir, "unused.jsonl"))
